@@ -100,8 +100,128 @@ def _non_holding(ctx, repo) -> None:
             ctx.check("C21.non-holding", fn, ok, f"{label}: after the verification run flagged these positions of a statement with assertions {names}, it keeps {second.assertions} (expected {want}); neighbours keep {first.assertions} / {third.assertions} (expected ['keep'] / ['b0']): an assertion that did not hold on the unmutated module stays on the test case, or one that held is dropped", what=f"{label} exactly the flagged assertions are removed", stmt=label)
 
 
+def _unchecked(ctx, repo) -> None:
+    """A mutant that was not executed never reaches the score: the producer returns the skip token on every path
+    that does not run the tests, and the consumer counts a mutant only after testing for that token."""
+    from sa.engine.cfg import CFG
+    from sa.engine.guards import unguarded_path
+
+    cls_fns = [(qn, fn) for m, qn, fn in repo.all_functions(AG) if qn.startswith(GEN + ".")]
+    producers = [(qn, fn) for qn, fn in cls_fns if any(isinstance(c, ast.Call) and last_attr(c) == "execute_multiple" for c in own_nodes(fn)) and any(isinstance(c, ast.Call) and last_attr(c) == "add_mutated_version" for c in own_nodes(fn))]
+    if len(producers) != 1:
+        raise AnalysisError(f"C21.unchecked: expected one function that installs a mutant and executes the tests on it, found {[q for q, _ in producers]}")
+    pqn, prod = producers[0]
+    pname = pqn.rsplit(".", 1)[1]
+    ctx.analysed(prod)
+    cfg = CFG(prod)
+    runs = cfg.find(lambda n: any(isinstance(c, ast.Call) and last_attr(c) == "execute_multiple" for c in ast.walk(n.stmt)) and not isinstance(n.stmt, (ast.If, ast.For, ast.While, ast.With, ast.Try)))
+    before = cfg.reachable([cfg.entry], avoid_nodes=runs)
+    rets = [n for n in cfg.nodes if isinstance(n.stmt, ast.Return)]
+    n_skip = 0
+    for n in rets:
+        if n.id not in before:
+            continue
+        n_skip += 1
+        v = n.stmt.value
+        ok = v is None or (isinstance(v, ast.Constant) and v.value is None)
+        ctx.check("C21.unchecked", n.stmt, ok, f"{pqn} returns `{norm(v) if v is not None else None}` on a path that never executes the tests on the mutant (an invalid module): the caller skips only the token None, so the mutant that was never checked gets a result column, is counted as checked and - never killed - lowers the mutation score as a survivor", what=f"{pname}: a path without execution returns the skip token None", stmt=f"[{pname}] return without execution")
+    if n_skip == 0 and not any(isinstance(x, ast.Raise) for x in own_nodes(prod)):
+        ctx.fail("C21.unchecked", prod, f"{pqn}: no path leaves without executing although the mutated module may be None (invalid mutant)", stmt=f"[{pname}] skip path")
+    # generator in between: yields exactly the producer's result
+    gens = [(qn, fn) for qn, fn in cls_fns if any(isinstance(y, ast.Yield) for y in own_nodes(fn)) and any(isinstance(c, ast.Call) and last_attr(c) == pname for c in own_nodes(fn))]
+    if len(gens) != 1:
+        raise AnalysisError(f"C21.unchecked: expected one generator yielding the per-mutant results, found {[q for q, _ in gens]}")
+    gqn, gen = gens[0]
+    gname = gqn.rsplit(".", 1)[1]
+    ctx.analysed(gen)
+    for y in [y for y in own_nodes(gen) if isinstance(y, ast.Yield)]:
+        v = y.value
+        ok = isinstance(v, ast.Call) and last_attr(v) == pname
+        ctx.check("C21.unchecked", y, ok, f"{gqn} yields `{norm(v) if v is not None else None}`, not the result of {pname}: a mutant that was not executed (budget exceeded / invalid) would get a column", what=f"{gname}: yields only per-mutant results", stmt=f"[{gname}] yield")
+    # consumer: counting after the skip test
+    consumers = [(qn, fn) for qn, fn in cls_fns for f in own_nodes(fn) if isinstance(f, ast.For) and isinstance(f.iter, ast.Call) and last_attr(f.iter) == gname]
+    if len(consumers) != 1:
+        raise AnalysisError(f"C21.unchecked: expected one loop over {gname}, found {[q for q, _ in consumers]}")
+    cqn, cons = consumers[0]
+    cname = cqn.rsplit(".", 1)[1]
+    ctx.analysed(cons)
+    loop = next(f for f in own_nodes(cons) if isinstance(f, ast.For) and isinstance(f.iter, ast.Call) and last_attr(f.iter) == gname)
+    if not isinstance(loop.target, ast.Name):
+        raise AnalysisError("C21.unchecked: loop target is not a name")
+    var = loop.target.id
+    ccfg = CFG(cons)
+    effects = [x for st in loop.body for x in ast.walk(st) if isinstance(x, ast.AugAssign) or (isinstance(x, ast.Call) and last_attr(x) in ("append", "extend", "add"))]
+    if not effects:
+        raise AnalysisError("C21.unchecked: the consumer loop neither counts nor collects")
+
+    def wanted(lit):
+        _k, e, pos = lit
+        return isinstance(e, ast.Compare) and len(e.ops) == 1 and isinstance(e.left, ast.Name) and e.left.id == var and isinstance(e.comparators[0], ast.Constant) and e.comparators[0].value is None and ((isinstance(e.ops[0], ast.IsNot) and pos) or (isinstance(e.ops[0], ast.Is) and not pos))
+
+    from sa.engine.guards import stmt_cfg_nodes
+    for x in effects:
+        nodes = stmt_cfg_nodes(ccfg, x)
+        path = unguarded_path(ccfg, nodes, wanted)
+        ctx.check("C21.unchecked", x, path is None, f"{cqn}: `{norm(x)}` is reached without the test `{var} is not None`: a mutant that was not executed is counted as checked / gets a result column and enters the score as a survivor", what=f"{cname}: `{norm(x)[:50]}` only for executed mutants", stmt=f"[{cname}] {norm(x)[:60]}")
+
+
+def _own_rendering(ctx, repo) -> None:
+    """Equal assertions need not render equally (ObjectAssertion compares values with ==, so 1 == True == 1.0): the
+    verification observer must not look an assertion's source up in state keyed by the assertion object."""
+    AS = "pynguin.assertion.assertion"
+    ATO = "pynguin.assertion.assertiontraceobserver"
+    amod = repo.module(AS)
+    cres = peval.repo_class_resolver(repo, only={"ObjectAssertion", "ReferenceAssertion", "Assertion"})
+    it = peval.Interp(resolver=peval.repo_resolver(repo), class_resolver=cres, max_steps=20000)
+    ctx.analysed(repo.func(AS, "ObjectAssertion.__eq__"))
+    try:
+        a = it.instantiate("ObjectAssertion", cres("ObjectAssertion", amod), ["var_0", 1], {})
+        b = it.instantiate("ObjectAssertion", cres("ObjectAssertion", amod), ["var_0", True], {})
+        coarse = bool(a.methods["__eq__"](b)) if "__eq__" in a.methods else bool(a == b)
+    except (peval.Undecided, peval.Raises) as exc:
+        ctx.undecide("C21.own-rendering", repo.func(AS, "ObjectAssertion.__eq__"), f"ObjectAssertion equality not interpretable: {exc}")
+        return
+    n = 0
+    for mod, qn, fn in repo.all_functions(ATO):
+        if "Verification" not in qn:
+            continue
+        names: set[str] = set()
+        for a_ in (*fn.args.args, *fn.args.kwonlyargs):
+            if a_.annotation is not None and norm(a_.annotation).endswith("Assertion"):
+                names.add(a_.arg)
+        for f in own_nodes(fn):
+            if isinstance(f, (ast.For, ast.comprehension)) and any(isinstance(x, ast.Attribute) and x.attr == "assertions" for x in ast.walk(f.iter)):
+                tgt = f.target
+                names |= {x.id for x in ast.walk(tgt) if isinstance(x, ast.Name)}
+        if not names:
+            continue
+        ctx.analysed(fn)
+        n += 1
+        bad = []
+        for x in own_nodes(fn):
+            key = None
+            if isinstance(x, ast.Subscript) and norm(x.value).startswith("self."):
+                key = x.slice
+            elif isinstance(x, ast.Call) and isinstance(x.func, ast.Attribute) and x.func.attr in ("get", "setdefault", "pop") and norm(x.func.value).startswith("self.") and x.args:
+                key = x.args[0]
+            elif isinstance(x, ast.Compare) and any(isinstance(o, (ast.In, ast.NotIn)) for o in x.ops) and any(norm(c).startswith("self.") for c in x.comparators):
+                key = x.left
+            if key is None:
+                continue
+            direct = [k for k in ([key] if not isinstance(key, ast.Tuple) else key.elts) if isinstance(k, ast.Name) and k.id in names]
+            if direct:
+                bad.append(x)
+        ctx.check("C21.own-rendering", bad[0] if bad else fn, not (bad and coarse), f"{qn}: `{norm(bad[0]) if bad else ''}` looks observer state up by the assertion object, but equal assertions do not render equally (ObjectAssertion('var_0', 1) == ObjectAssertion('var_0', True) while one renders `== 1` and the other `is True`): the verification run executes the source of a different assertion, so an assertion that does not hold on the unmutated module is kept (or a holding one removed)", what=f"{qn}: no state keyed by assertion objects", stmt=f"[{qn}] state keyed by assertion")
+    if n == 0:
+        raise AnalysisError("C21.own-rendering: no verification function iterates over statement assertions")
+
+
 def check(ctx) -> None:
     repo = ctx.repo
+    ctx.rule("C21.own-rendering", "ABSINT + WHO-MAY: ObjectAssertion equality (interpreted) conflates 1 and True, so no verification-observer state is keyed by an assertion object", floor=1)
+    _own_rendering(ctx, repo)
+    ctx.rule("C21.unchecked", "MUST-PASS + GUARD-DOM: the per-mutant producer returns the skip token None on every path that does not execute the tests; the generator yields only producer results; the consumer counts and collects only under `is not None`", floor=4)
+    _unchecked(ctx, repo)
     ctx.rule("C21.non-holding", "ABSINT: __remove_non_holding_assertions, interpreted over every disjoint combination of failed / erroring positions, removes exactly the flagged assertions of each statement", floor=13)
     _non_holding(ctx, repo)
     ctx.rule("C21.partition", "ABSINT: get_survived / get_killed / get_timeout partition the mutants for all 4 states of (killed_by, timed_out_by); get_metrics counts them; get_score = killed / (created - timeout) in [0, 1], 1.0 when nothing was checked", floor=30)
